@@ -2,6 +2,7 @@ CONSTANTS
 Clusters = {1, 2, 3}
 RPCs = {1, 2, 3}
 MaxUpdates = 3
+Eager = FALSE
 Mutant = 0
 INIT Init
 NEXT Next
